@@ -151,7 +151,7 @@ func (g *gen) model(d defect, limit int, withOptional bool) []eframe {
 		for _, ev := range fr.events {
 			// parser.ParseFunction wraps the body: "(function(" + params + ") {\n" + body + "\n})"
 			shift := 0
-			if text.fnbody {
+			if text.fnbody && !ev.abs {
 				shift = len("(function() {\n")
 			}
 			switch ev.kind {
